@@ -27,6 +27,12 @@ func init() {
 	// one evaluation must not change a value that later evaluations share (decode trees, jq arrays/objects)
 	RegisterExtra("C18", func(r *fw.Run, p *fw.Program) {
 		jqImmutAs(r, p, "C18.immut")
+		// the interrupt stack is the one piece of state the evaluating goroutine shares with another goroutine
+		sc20 := r.Scratch()
+		if f := Get("C20"); f != nil {
+			f(sc20, p)
+			r.Import(sc20, "C20.lock", "C18.lock", "every access to the interrupt stack's mutable state, in every function, closure and helper, holds the Stack's mutex on all paths: no data race between an interrupt and evaluations starting or finishing (C20.lock obligations)", 15, nil)
+		}
 		sc := r.Scratch()
 		if f := Get("C08"); f != nil {
 			f(sc, p)
